@@ -33,6 +33,24 @@ def compile_script(script_path: str) -> CompilerOutput:
     """
     script_dir = os.path.dirname(script_path)
     sys.path.insert(0, script_dir)
+    loaded_before = set(sys.modules)
+    try:
+        return _compile_script(script_path)
+    finally:
+        # The helper modules of this program must not outlive its compilation: a
+        # later program importing a module of the same name from its own directory
+        # would silently get this program's.
+        own_dir = os.path.abspath(script_dir)
+        for name in set(sys.modules) - loaded_before:
+            path = getattr(sys.modules[name], "__file__", None)
+            if path and os.path.dirname(os.path.abspath(path)) == own_dir:
+                del sys.modules[name]
+        if script_dir in sys.path:
+            sys.path.remove(script_dir)
+
+
+def _compile_script(script_path: str) -> CompilerOutput:
+    """Loads the program from its path, traces it and compiles it."""
     script_name = os.path.basename(script_path)
     if script_name.endswith(".py"):
         script_name = script_name[:-3]
